@@ -435,6 +435,7 @@ class Ctx:
     self.sqrt_hook = None     # optional f(ctx, a) -> value or None
     self.saturate = False
     self.pair_cos_min = None
+    self.tparam_bound = None
     self.sqrt_candidates = []  # candidate closed forms r for sqrt arguments (checked by lemma queries)
     self.sqrt_folded = {}
     self.lemma_stats = {'queries': 0, 'folded': 0, 'time': 0.0}
@@ -543,6 +544,8 @@ class Ctx:
     if key not in self.trig:
       if self.trig_mode == 'tparam':
         t = self.fresh('t')
+        if self.tparam_bound is not None:
+          self.side += [t >= -lift(self.tparam_bound), t <= lift(self.tparam_bound)]
         self.tvars[av[0] if av is not None else key] = t
         self.tdefs[t.decl().name()] = lift(a)
         self.trig[key] = (2 * t / (1 + t * t), (1 - t * t) / (1 + t * t), lift(a))
